@@ -245,6 +245,14 @@ def make_source(st, spec, led_name):
         kw["from_string"] = True
         return env.text(spec["text"]), kw
     feats = _features_from_lines(spec["lines"])
+    if form == "objs":
+        # Feature objects built in code (no dialect of their own), as a program that computes features would hand them over
+        built = []
+        for f0 in feats:
+            built.append(gfeature.Feature(seqid=f0.seqid, source=f0.source, featuretype=f0.featuretype, start=f0.start, end=f0.end,
+                                          score=f0.score, strand=f0.strand, frame=f0.frame,
+                                          attributes=dict((k_, list(v_)) for k_, v_ in f0.attributes.items())))
+        return built, kw
     if form == "list":
         return feats, kw
     if form == "gen":
